@@ -2,6 +2,7 @@ import Iavl.Lemmas.Versions
 import Iavl.Lemmas.Orphans2
 import Iavl.Generated.FactsOk
 import Iavl.Lemmas.VersionSharingN
+import Iavl.Lemmas.PruneSafe
 /-
   C04 — pruning safety. Two layers: (a) the version machine (the behaviour the API must show, equal
   for the versioned map and the tree machine by C01): a deletion up to `n` removes exactly the
@@ -53,6 +54,18 @@ theorem orphans_exact_of_every_history [BEq K] (iv : Option Nat) (ops : List (Op
   refine orphans_correct u T T' gT.1 gT'.1 (hn.allLe _ h1) ?_
   intro s hs
   exact hn.pairs u (some T) (some T') h1 h2 s (sharedRoots_sub u T' s hs) (sharedRoots_sharedAt u T' s hs)
+/-- **no later version needs what pruning deletes, in every history.** `orphans_exact_of_every_history`
+    says the deleted set for version `u` is "the nodes of `u` that `u+1` does not use"; this closes the gap to
+    the property's wording: such a node is used by **no** retained version above `u`, in every state reached
+    from an empty store by a history free of the two documented misuses (`OpOk`, see C14). -/
+theorem pruned_nodes_needed_by_no_later_version [BEq K] (iv : Option Nat) (ops : List (Op K V))
+    (hok : RunOk treeContent (initT iv : VState (OTree K V)) ops) (u w : Nat) (T : Node K V) (c' c : OTree K V)
+    (h1 : (u, some T) ∈ (stateAfter (initT iv) ops).versions)
+    (h2 : (u + 1, c') ∈ (stateAfter (initT iv) ops).versions)
+    (hw : (w, c) ∈ (stateAfter (initT iv) ops).versions) (huw : u + 1 ≤ w)
+    (n : Node K V) (hn : Sub n T) (hnot : ¬ SubO n c') : ¬ SubO n c :=
+  pruned_unused_in_every_history iv ops hok u w T c' c h1 h2 hw huw n hn hnot
+
 end storage
 
 end Iavl.Props.C04
